@@ -126,6 +126,18 @@ def check_mod_mass(case) -> Result:
         if abs(got - exp) > (1e-5 if mono else 2e-3) * mult:
             r.fail('mod_mass = mass of the modification x multiplier', f'C02/mod_mass/{ref["kind"]}' + ('' if mono else '/average'),
                    mod=text, mult=mult, expected=exp, got=got)
+        # a requested precision rounds the result - the mass of the modification times its multiplier - once
+        prec = case.get('precision')
+        if prec is not None:
+            gp = pt.mod_mass(Mod(text, mult), monoisotopic=mono, precision=prec)
+            full = pt.mod_mass(Mod(text, mult), monoisotopic=mono)
+            if abs(gp - full) > 0.5 * 10 ** (-prec) + 1e-9:
+                unit = pt.mod_mass(Mod(text, 1), monoisotopic=mono, precision=prec)
+                sig = f'C02/mod_mass/precision/{ref["kind"]}'
+                if abs(gp - unit * mult) <= 1e-9 * max(1.0, abs(gp)):
+                    sig = 'C02/mod_mass/precision-applied-before-the-multiplier'
+                r.fail('with a precision, mod_mass is the mass times the multiplier, rounded', sig, mod=text, mult=mult, precision=prec,
+                       got=gp, unrounded=full, mono=mono)
         if ref['comp'] is not None and ref['kind'] in ('formula',):
             c = {k: v for k, v in ref['comp'].items()}
             got = pt.chem_mass(c, monoisotopic=mono)
@@ -282,7 +294,8 @@ def strategy():
 
 
 def mod_strategy():
-    return st.fixed_dictionaries({'mod': gen.mass_mod(('num', 'formula', 'unimod', 'glycan', 'obs', 'shift'))})
+    return st.fixed_dictionaries({'mod': gen.mass_mod(('num', 'formula', 'unimod', 'glycan', 'obs', 'shift')),
+                                  'precision': st.sampled_from([None, 0, 1, 2, 3, 4])})
 
 
 def parts(tier):
